@@ -236,6 +236,15 @@ impl<K: Conv + Ord, V: Conv> Conv for BTreeMap<K, V> {
         Val::Map(self.iter().map(|(k, w)| (k.to_val(), w.to_val())).collect())
     }
 }
+impl<T: Conv> Conv for std::collections::LinkedList<T> {
+    fn from_val(v: &Val) -> Self {
+        v.as_seq().iter().map(T::from_val).collect()
+    }
+    fn to_val(&self) -> Val {
+        Val::Seq(self.iter().map(|x| x.to_val()).collect())
+    }
+}
+
 impl<T: Conv + Eq + std::hash::Hash> Conv for HashSet<T> {
     fn from_val(v: &Val) -> Self {
         v.as_seq().iter().map(T::from_val).collect()
